@@ -272,6 +272,7 @@ class Mirror:
         self.prog = prog
         self.nodes = prog["nodes"]
         self.xp = xp          # numpy (generation) or jax.numpy (oracle); default jax.numpy
+        self.tape = None      # list collecting every intermediate value (for rounding scales)
 
     # -- evaluation ---------------------------------------------------------
     def ev(self, i, env, cache=None):
@@ -281,6 +282,8 @@ class Mirror:
             return cache[i]
         r = self._ev(i, env, cache)
         cache[i] = r
+        if self.tape is not None:
+            self.tape += list(r.values()) if isinstance(r, dict) else [r]
         return r
 
     def _ev(self, i, env, cache):
@@ -529,8 +532,50 @@ def layout_of_domain(I, dom, cplx):
 
 def layout_of_value(I, f):
     if isinstance(f, I.MultiField):
-        return Layout([(k, f[k].shape, np.iscomplexobj(f[k].asnumpy())) for k in f.keys()])
+        return Layout([(k, f[k].shape, np.iscomplexobj(f[k].asnumpy())) for k in sorted(f.keys())])
     return Layout([(None, f.shape, np.iscomplexobj(f.asnumpy()))])
+
+
+class NiftyRaised(Exception):
+    """an exception escaped from NIFTy code while the harness observed an operator"""
+
+    def __init__(self, phase, exc):
+        self.phase, self.exc = phase, exc
+        self.key = nifty_exc_key(exc)
+        super().__init__(f"{phase}: {type(exc).__name__}: {str(exc)[:200]}")
+
+
+class Probe:
+    __slots__ = ("v0", "lin", "tlay", "vec0", "veclin", "J", "A", "M", "imagA", "imagM")
+
+
+def probe_operator(I, F, xf, wm, lay_in, adjoint=True, metric=True):
+    """observe F(x), F(Linearization) -> val, dense jac (expanded target layout), dense
+    jac.adjoint (natural layouts), dense metric"""
+    p = Probe()
+    dom = F.domain
+
+    def guard(phase, fn):
+        try:
+            return fn()
+        except Exception as e:        # noqa
+            if nifty_exc_key(e) is None:
+                raise
+            raise NiftyRaised(phase, e)
+    p.v0 = guard("apply", lambda: F(xf))
+    p.lin = guard("apply-linearization", lambda: F(I.Linearization.make_var(xf, wm)))
+    p.tlay = layout_of_value(I, p.v0)
+    p.vec0 = p.tlay.pack(field_to_np(I, p.v0), expand=True)
+    p.veclin = p.tlay.pack(field_to_np(I, p.lin.val), expand=True)
+    p.J = guard("jac", lambda: dense_linear(I, p.lin.jac, lay_in, dom, p.tlay, True))[0]
+    p.A = p.M = None
+    if adjoint:
+        p.A, p.imagA = guard("jac.adjoint", lambda: dense_linear(
+            I, p.lin.jac.adjoint, p.tlay, F.target, lay_in, False))
+    if metric and p.lin.metric is not None:
+        p.M, p.imagM = guard("metric", lambda: dense_linear(
+            I, p.lin.metric, lay_in, dom, lay_in, False))
+    return p
 
 
 def dense_linear(I, fn, lay_in, dom_in, lay_out, expand_out):
@@ -702,7 +747,9 @@ def build_nifty(I, prog, upto=None, vdoms=None):
         elif op == "subst":
             outer, inner = O(nd[1]), O(nd[3])
             ins = inner.ducktape_left(nd[2])
-            r = outer @ ins if i % 2 else outer.partial_insert(ins)
+            # LinearOperator.__matmul__ is strict composition; Operator.__matmul__ inserts
+            r = outer @ ins if (i % 2 and not isinstance(outer, I.LinearOperator)) \
+                else outer.partial_insert(ins)
         elif op == "count":
             a = O(nd[1])
             r = a @ I.CountingOperator(a.domain)
@@ -731,8 +778,13 @@ def _build_lh(I, nd, ops, O):
             e = I.VariableCovarianceGaussianEnergy(mdom[par["kr"]], par["kr"], par["ki"], dt)
         else:
             k0, k1 = par["keys"]
+            # Gaussian in the residual r = a*exp(0.2 b) - 0.3; r is the documented
+            # `transformation` (metric = J_r^T J_r)
+            fa, fb = I.FieldAdapter(mdom[k0], k0), I.FieldAdapter(mdom[k1], k1)
+            trafo = fa*(fb.scale(0.2)).exp() - 0.3
             e = I.JaxLikelihoodEnergyOperator(
-                mdom, lambda x: 0.5*jnp.sum((x[k0]*jnp.exp(0.2*x[k1]) - 0.3)**2))
+                mdom, lambda x: 0.5*jnp.sum((x[k0]*jnp.exp(0.2*x[k1]) - 0.3)**2),
+                transformation=trafo, sampling_dtype=np.float64)
         return e if isinstance(a, _Vars) else e @ a
     a = O(nd[2])
     tgt = a.target
@@ -1156,8 +1208,9 @@ class Gen:
         if a is None:
             return None
         k = ["real", "imag", "conj"][int(rng.integers(0, 3))]
-        if k == "imag" and not self.info[a]["t"][2]:
-            return None          # Imaginizer refuses real input by design
+        if k == "imag" and not (self.info[a]["t"][2] and np.any(self.info[a]["val"].imag != 0)):
+            return None          # Imaginizer refuses real input by design (and an exactly
+            #                      cancelled complex value comes back as real zeros)
         return self.add([k, a], self.info[a]["t"], [a])
 
     def p_pack(self):
@@ -1381,7 +1434,7 @@ class Gen:
             grp = [q for q in keys if self.inputs[q][0] == self.inputs[keys[0]][0]]
             if len(grp) < 2:
                 return None
-            grp = grp[:3]
+            grp = grp[:2] if k == "jaxlh" else grp[:3]
             typ = ("MD", {q: (self.inputs[q][0], 0) for q in grp})
             vs = self.add(["vars", grp], typ, [])
             if k == "jaxlh":
@@ -1596,85 +1649,134 @@ def x_to_vals(prog, x):
     return x
 
 
+class TracedMirror:
+    """jax.jvp of the mirror of one node, traced once (the trace does not depend on the
+    point); ``at(xvec)`` evaluates value and Jacobian at a point.
+
+    The traced program (jax's derivative rules applied by jax) is evaluated per basis
+    tangent by vf.jaxpr_np; unknown primitive -> fallback to jax.jit(jax.jacfwd).
+
+    sval / sjac of the result: largest magnitude of any intermediate value / any entry of
+    any intermediate Jacobian — the scale of the rounding error when terms cancel."""
+
+    def __init__(self, prog, node, out_keys=None, stats=None):
+        import jax
+        import jax.numpy as jnp
+        self.prog, self.node, self.stats = prog, node, stats
+        lay = self.lay = input_layout(prog)
+        mir = Mirror(prog, xp=jnp)
+        box = {}
+
+        def f(xv):
+            mir.tape = []
+            v = mir.ev(node, env_from(prog, lay, xv, xp=jnp), {})
+            tape, mir.tape = mir.tape, None
+            if isinstance(v, dict):
+                keys = sorted(v) if out_keys is None else list(out_keys)
+                olay = Layout([(k, np.shape(v[k]), jnp.iscomplexobj(v[k])) for k in keys])
+            else:
+                olay = Layout([(None, np.shape(v), jnp.iscomplexobj(v))])
+            box["olay"] = olay
+            aux = []
+            for a in tape:
+                a = jnp.reshape(jnp.asarray(a), (-1,))
+                aux += [jnp.real(a), jnp.imag(a)] if jnp.iscomplexobj(a) else [a]
+            return jnp.concatenate([olay.pack(v, expand=True, xp=jnp), xv] + aux)
+        self.f = f
+        self.n = lay.size()
+        x0 = np.zeros(self.n) + 0.5
+        self.jp = jax.make_jaxpr(lambda a, t: jax.jvp(f, (a,), (t,)))(x0, x0)
+        self.olay = box["olay"]
+        self.m = self.olay.size(expand=True)
+        self.use_xla = False
+
+    def at(self, xvec):
+        from vf import jaxpr_np
+        x0 = np.asarray(xvec, dtype=np.float64)
+        n = self.n
+        Jall = vec = None
+        if not self.use_xla:
+            try:
+                with np.errstate(all="ignore"):
+                    for j in range(n):
+                        e = np.zeros(n)
+                        e[j] = 1.
+                        val, dval = jaxpr_np.eval_jaxpr(self.jp.jaxpr, self.jp.consts, x0, e)
+                        dval = np.asarray(dval, dtype=np.float64).reshape(-1)
+                        if Jall is None:
+                            Jall = np.zeros((dval.size, n))
+                        Jall[:, j] = dval
+                        vec = np.asarray(val, dtype=np.float64).reshape(-1)
+                if self.stats is not None:
+                    self.stats["np"] = self.stats.get("np", 0) + 1
+            except jaxpr_np.Unsupported as ex:
+                self.use_xla = True
+                if self.stats is not None:
+                    self.stats["unsupported:" + str(ex)] = 1
+        if self.use_xla:
+            import jax
+            import jax.numpy as jnp
+            if not hasattr(self, "_jit"):
+                self._jit = jax.jit(lambda a: (self.f(a), jax.jacfwd(self.f)(a)))
+            vec, Jall = self._jit(jnp.asarray(x0))
+            vec, Jall = np.asarray(vec), np.asarray(Jall).reshape(-1, n)
+            if self.stats is not None:
+                self.stats["xla"] = self.stats.get("xla", 0) + 1
+        o = Oracle()
+        o.olay = self.olay
+        o.vec = vec[:self.m]
+        o.J = Jall[:self.m]
+        o.val = self.olay.unpack_expanded(o.vec)
+        o.sval = float(np.max(np.abs(vec), initial=0.))
+        o.sjac = float(np.max(np.abs(Jall), initial=0.))
+        return o
+
+
+class Oracle:
+    """value, Jacobian and rounding scales of one node, from the mirror"""
+    __slots__ = ("val", "vec", "J", "olay", "sval", "sjac")
+
+
 def mirror_value_and_jac(prog, node, xvec, out_keys=None, stats=None):
-    """value and Jacobian d(expanded out)/d(xvec) of a node by jax forward-mode autodiff of
-    the mirror.  ``jax.jvp(mirror)`` is traced once; the traced program is evaluated per
-    basis tangent by vf.jaxpr_np (fallback: jax.jit(jax.jacfwd)).
-    Returns (value as array/dict, expanded value vector, J, out_layout)"""
-    import jax
-    import jax.numpy as jnp
-    from vf import jaxpr_np
-    lay = input_layout(prog)
-    mir = Mirror(prog, xp=jnp)
-    box = {}
-
-    def f(xv):
-        v = mir.ev(node, env_from(prog, lay, xv, xp=jnp), {})
-        if isinstance(v, dict):
-            keys = sorted(v) if out_keys is None else list(out_keys)
-            olay = Layout([(k, np.shape(v[k]), jnp.iscomplexobj(v[k])) for k in keys])
-        else:
-            olay = Layout([(None, np.shape(v), jnp.iscomplexobj(v))])
-        box["olay"] = olay
-        return olay.pack(v, expand=True, xp=jnp)
-
-    x0 = np.asarray(xvec, dtype=np.float64)
-    n = len(x0)
-    jp = jax.make_jaxpr(lambda a, t: jax.jvp(f, (a,), (t,)))(x0, x0)
-    olay = box["olay"]
-    m = olay.size(expand=True)
-    J = np.zeros((m, n))
-    vec = None
-    try:
-        with np.errstate(all="ignore"):
-            for j in range(n):
-                e = np.zeros(n)
-                e[j] = 1.
-                val, dval = jaxpr_np.eval_jaxpr(jp.jaxpr, jp.consts, x0, e)
-                J[:, j] = np.asarray(dval, dtype=np.float64).reshape(-1)
-                vec = np.asarray(val, dtype=np.float64).reshape(-1)
-            if n == 0:
-                vec = np.asarray(f(jnp.asarray(x0)))
-        if stats is not None:
-            stats["np"] = stats.get("np", 0) + 1
-    except jaxpr_np.Unsupported as ex:
-        if stats is not None:
-            stats["xla"] = stats.get("xla", 0) + 1
-            stats["unsupported:" + str(ex)] = 1
-        vec, J = jax.jit(lambda a: (f(a), jax.jacfwd(f)(a)))(jnp.asarray(x0))
-        vec, J = np.asarray(vec), np.asarray(J).reshape(m, n)
-    return olay.unpack_expanded(vec), vec, J, olay
+    return TracedMirror(prog, node, out_keys, stats).at(xvec)
 
 
 def expected_metric(prog, node, xvec):
-    """J^T M_lh J for likelihood-type nodes (real representation of the input)"""
+    """(J^T M_lh J, rounding scale) for likelihood-type nodes (real repr. of the input)"""
     nd = prog["nodes"][node]
     op = nd[0]
     n = len(xvec)
     if op == "lh":
         kind, seed, par = nd[1], nd[3], nd[4]
-        val, _, J, olay = mirror_value_and_jac(
-            prog, nd[2], xvec, out_keys=[par["kr"], par["ki"]] if kind == "varcov" else None)
+        if kind != "jaxlh":
+            o = mirror_value_and_jac(
+                prog, nd[2], xvec, out_keys=[par["kr"], par["ki"]] if kind == "varcov" else None)
+            val, J = o.val, o.J
         if kind == "varcov":
             ic = np.real(val[par["ki"]]).reshape(-1)
             fct = 1. if par.get("cplx") else 0.5
             d = np.concatenate([ic, ic, fct*ic**(-2), 0*ic])   # (Re r, Im r, Re i, Im i)
         elif kind == "jaxlh":
-            return None
+            o = mirror_value_and_jac(prog, nd[2], xvec, out_keys=par["keys"])
+            a, b = (np.real(o.val[k]).reshape(-1) for k in par["keys"])
+            na = a.size
+            Ja, Jb = o.J[:na], o.J[2*na:3*na]
+            Jr = np.exp(0.2*b)[:, None]*Ja + (0.2*a*np.exp(0.2*b))[:, None]*Jb
+            return Jr.T @ Jr, float(np.max(np.abs(Jr), initial=0.)**2)
         else:
             m = lh_metric_diag(kind, np.real(val) if kind != "gauss" else val, seed, par)
             m = np.real(np.asarray(m, dtype=complex)).reshape(-1)
             d = np.concatenate([m, m])
-        return J.T @ (d[:, None]*J)
+        return J.T @ (d[:, None]*J), float(o.sjac**2*np.max(np.abs(d), initial=0.))
     if op == "lhscale":
         m = expected_metric(prog, nd[1], xvec)
-        return None if m is None else nd[2]*m
+        return None if m is None else (nd[2]*m[0], nd[2]*m[1])
     if op == "lhsum":
         a, b = expected_metric(prog, nd[1], xvec), expected_metric(prog, nd[2], xvec)
-        return None if a is None or b is None else a + b
+        return None if a is None or b is None else (a[0] + b[0], a[1] + b[1])
     if op == "ham":
         m = expected_metric(prog, nd[1], xvec)
-        return None if m is None else m + np.eye(n)
+        return None if m is None else (m[0] + np.eye(n), m[1] + 1.)
     return None
 
 
@@ -1682,7 +1784,9 @@ def is_energy_root(prog):
     return prog["nodes"][-1][0] in ("lh", "lhscale", "lhsum", "ham")
 
 
-def norm_close(a, b, rtol=1e-9):
+def norm_close(a, b, rtol=1e-9, scale=0., stol=1e-11):
+    """max|a-b| <= rtol*(max|a|+max|b|) + stol*scale;  scale = magnitude of the largest
+    intermediate quantity (rounding error of cancelling terms).  Returns (ok, relative dev)"""
     a, b = np.asarray(a, dtype=float), np.asarray(b, dtype=float)
     if a.shape != b.shape:
         return False, float("inf")
@@ -1692,4 +1796,25 @@ def norm_close(a, b, rtol=1e-9):
         return False, float("nan")
     sc = np.max(np.abs(a)) + np.max(np.abs(b))
     dev = float(np.max(np.abs(a - b)))
-    return dev <= rtol*sc + 1e-300, (dev/sc if sc > 0 else 0.)
+    return dev <= rtol*sc + stol*scale + 1e-300, (dev/sc if sc > 0 else 0.)
+
+
+def nifty_exc_key(e):
+    """mechanism key of an exception raised inside NIFTy: Type@Class.function[:mode]"""
+    import traceback
+    tb = e.__traceback__
+    last = None
+    while tb is not None:
+        fn = tb.tb_frame.f_code.co_filename
+        if "/nifty/" in fn and "/verif/" not in fn:
+            last = tb.tb_frame
+        tb = tb.tb_next
+    if last is None:
+        return None
+    slf = last.f_locals.get("self")
+    cls = type(slf).__name__ if slf is not None else last.f_code.co_filename.split("/")[-1]
+    key = f"{type(e).__name__}@{cls}.{last.f_code.co_name}"
+    mode = last.f_locals.get("mode")
+    if isinstance(mode, int):
+        key += ":mode%d" % mode
+    return key
